@@ -254,14 +254,13 @@ def run_mutant(scratch, unit, mem_gb):
             subprocess.run(["cp", "-a", scratch.dir, mdir], check=True)
             ms = core.Scratch("x")
             ms.dir, ms.repo = mdir, os.path.join(mdir, "repo")
-            for f in {sl["file"] for sl in unit.get("slices", [])}:
+            # every K-slice of the scratch copy is re-extracted from the mutated text (the attached
+            # harness modules reference all of them)
+            for f in {sl["file"] for sl in scratch.slices}:
                 ms.drop_slices(f)
             ms.apply_edit(m["file"], m["old"], m["new"])
-            seen = set()
-            for sl in unit.get("slices", []):
-                if sl["name"] not in seen:
-                    ms.add_slice(sl)
-                    seen.add(sl["name"])
+            for sl in scratch.slices:
+                ms.add_slice(sl)
             r = core.run_kani_unit(ms, unit, mem_gb)
         else:
             os.makedirs(mdir)
